@@ -7,7 +7,7 @@ EXTENDS Whirlpool
 MCPriceOf == [t \in -2..2 |-> CASE t = -2 -> 52 [] t = -1 -> 58 [] t = 0 -> 64 [] t = 1 -> 71 [] t = 2 -> 78]
 MCMinTick == -2
 MCRanges == {<<-2, 2>>, <<-1, 1>>, <<0, 2>>, <<-2, 0>>, <<-1, 0>>, <<0, 1>>}
-MCStartGrowth == {0, 1048570}
+MCStartGrowth == {0, 1048575}     \* (2^20 - 1: the first unit of fee growth wraps the accumulator)
 MCNoLimits == {0}
 MCVacuous == {-1}
 MCLimits == {0, 55, 58, 61, 68, 71}      \* none, inside a tick, exactly on a tick (both sides of the start price)
@@ -28,6 +28,19 @@ Tally ==
   /\ (last.op = "swap" /\ last.lim # 0 /\ (IF last.exactIn THEN last.ain ELSE last.aout) < last.amt /\ sp = last.lim) => TLCSet(22, TRUE)   \* stopped at an explicit limit
   /\ (last.op = "swap" /\ last.lim # 0 /\ \E t \in Ticks : ticks[t].init /\ P(t) = sp) => TLCSet(23, TRUE)                                   \* ... which is an initialized tick
   /\ (last.op = "swap" /\ last.threshold \notin {0, 1000000}) => TLCSet(24, TRUE)                                                           \* with a real slippage threshold
+\* fees are really credited, protocol fees really accrue, and both are really paid out (with liquidity units of 640 and more and
+\* amounts up to 40 the fee growth per unit of liquidity rounds to zero in every step: the fee invariants would hold vacuously)
+TallyFees ==
+  /\ (\E i \in PosIds : \E t \in Tok : credited[i][t] > 0) => TLCSet(31, TRUE)
+  /\ (\E t \in Tok : po[t] > 0) => TLCSet(32, TRUE)
+  /\ (last.op = "collect" /\ (last.paid[1] > 0 \/ last.paid[2] > 0)) => TLCSet(33, TRUE)
+  /\ (last.op = "collect_protocol" /\ (last.paid[1] > 0 \/ last.paid[2] > 0)) => TLCSet(34, TRUE)
+  \* (in the instance that starts both accumulators at 2^20 - 1) a fee was credited across the wrap-around of the global accumulator
+  /\ (\E t \in Tok : fg[t] < 1000 /\ \E i \in PosIds : credited[i][t] > 0) => TLCSet(35, TRUE)
+MCStartHigh == {1048575}
+CovFeesInit == Init /\ \A i \in 10..35 : TLCSet(i, FALSE)
+CovFeesSpec == CovFeesInit /\ [][Next]_vars
+CovFeesOK == \A i \in {31, 32, 33, 34, 35} : TLCGet(i) \/ (PrintT(<<"never taken", i>>) /\ FALSE)
 CovOK == \A i \in 11..20 : TLCGet(i)
 \* (register 24 is informative only: a swap with a real threshold reaches the same core state as one without, and the VIEW keeps one of them)
 CovLimitsOK == \A i \in 11..23 : i = 21 \/ TLCGet(i) \/ (PrintT(<<"never taken", i>>) /\ FALSE)
